@@ -140,6 +140,7 @@ def modify_table(ctx, rec, field, variants):
             if n.get("s") == "let" and n.get("init") is not None and unwrap(n["init"]) is m and n["pat"].get("p") == "bind":
                 tab_local = n["pat"]["local"]
         mapped = set()
+        escapes = {}
         for a in m["arms"]:
             alts = alternatives(a["pat"])
             b = unwrap(a["body"])
@@ -150,6 +151,14 @@ def modify_table(ctx, rec, field, variants):
                 v = vdef.split("::")[-1]
                 if is_some and first is not None and attr_binding_matches(first, b["args"][0]):
                     mapped.add(v)
+                elif v in variants:
+                    # an arm (guarded or not) that takes an attribute-bearing variant past the uuid test
+                    escapes[v] = a["body"].get("line")
+        for v, ln in sorted(escapes.items()):
+            ctx.violation(rule, fn, f"variant:{v}:escapes",
+                          f"{short(fn, 2)} has an arm that matches Modify::{v} but does not hand its attribute to the uuid test "
+                          f"(the arm yields something other than Some(<its attribute>)): a Modify::{v} on uuid can be accepted on that path, "
+                          "whatever the arm's guard intends", file=rec["file"], line=ln)
         # the test
         test = None
         for n in walk(body, into_closures=False):
